@@ -14,7 +14,7 @@ def run(ctx):
     from ahbicht.expressions.format_constraint_expression_evaluation import format_constraint_evaluation
     from ahbicht.models.enums import ModalMark, PrefixOperator
 
-    built = prepare(ctx, ["Gen_logic", "Gen_ranges", "Gen_valmaps", "Gen_enums", "Gen_ahbgrammar"], ["Props/C09.vo", "Corr/Validate.vo"])
+    built = prepare(ctx, ["Gen_logic", "Gen_ranges", "Gen_valmaps", "Gen_enums", "Gen_ahbgrammar"], ["Props/C09.vo", "Corr/Validate.vo", "Corr/Ahb.vo"])
     CANON = {"M": ModalMark.MUSS, "MUSS": ModalMark.MUSS, "S": ModalMark.SOLL, "SOLL": ModalMark.SOLL, "K": ModalMark.KANN, "KANN": ModalMark.KANN,
              "X": PrefixOperator.X, "O": PrefixOperator.O, "U": PrefixOperator.U}
     terms, metas = [], []
@@ -95,6 +95,18 @@ def run(ctx):
     for i in bad[:10]:
         ctx.broke("correspondence mismatch (AHB evaluation): model and ahbicht differ", str(metas[i][:3]) + " -> " + terms[i][-500:])
     ctx.notes["correspondence"] = {"ahb": {"cases": n, "mismatches": len(bad)}}
+    # the string-level split: Lark on the AHB grammar vs the scanner model
+    from vlib.props import c02
+
+    AIMPORTS = "From Ahb Require Import Model.Prelude Model.Grammar Gen.Gen_grammar Gen.Gen_ahbgrammar Model.Lex Model.EvalAhb Model.Ahb Corr.Parse Corr.Ahb."
+    sterms = [f"({runner.gtext(m[0])}, {c02.ahb_obs(c02.classify(lambda: parse_ahb(m[0])))})" for m in metas]
+    n3, bad3, err3 = runner.run_case_files("C09_split", AIMPORTS, "ahbparse_case", "ahbparse_check", sterms, shard=300)
+    if err3:
+        ctx.broke("correspondence (AHB scanner) could not be evaluated in Coq", err3)
+    for i in bad3[:10]:
+        ctx.broke("correspondence mismatch (AHB scanner): model and Lark differ", f"{metas[i][0]!r} -> {sterms[i][-300:]}")
+    ctx.notes["correspondence"]["scanner"] = {"cases": n3, "mismatches": len(bad3)}
+    ctx.add_eval(n3)
     ctx.add_eval(n)
     ctx.coverage["distinct_nontrivial"] = n_multi
     ctx.coverage["rule"] = ("AHB expressions assembled from 1-5 modal-mark parts (all spellings M/Muss/S/Soll/K/Kann in mixed case, white space variants), optional trailing bare modal mark, "
